@@ -74,8 +74,13 @@ def push_shape_memo(arguments: dict[str, Any]):
         suspended = _shape_storage.suspended
     except AttributeError:
         suspended = _shape_storage.suspended = []
+    # (No function call from here on: entered at the very end of the stack, a call could
+    # raise RecursionError with the memo already pushed and nobody left to pop it.)
     suspended.append(
-        (get_treeflatten_memo(), getattr(_treepath_storage, "value", None))
+        (
+            getattr(_treeflatten_storage, "value", False),
+            getattr(_treepath_storage, "value", None),
+        )
     )
     _treeflatten_storage.value = False
     _treepath_storage.value = None
